@@ -12,6 +12,7 @@ func init() {
 	vpHarnesses["VP_C18_conv"] = VP_C18_conv
 	vpHarnesses["VP_C18_bits"] = VP_C18_bits
 	vpHarnesses["VP_C18_bigints"] = VP_C18_bigints
+	vpHarnesses["VP_C18_tostring"] = VP_C18_tostring
 }
 
 // vpBigEq: x is finite and equals (-1)^neg * coef * 10^exp exactly (zero: any sign).
@@ -74,6 +75,15 @@ func VP_C18_rounding() {
 		return
 	}
 	arg := x.big()
+	if vpParam("H") == 1 {
+		// history: another rounding builtin ran earlier in this process
+		if pre := vpChoice("pre", 3); pre > 0 {
+			g, _ := vpBuiltin([]string{"", "round", "roundBank"}[pre]).(func(*decimal.Big) (*decimal.Big, error))
+			if g != nil {
+				g(decimal.New(25, 1))
+			}
+		}
+	}
 	r, err := f(arg)
 	vpAssert("C18/rounding/no-error", err == nil && r != nil)
 	if err != nil || r == nil {
@@ -343,4 +353,23 @@ func VP_C18_bigints() {
 		vpAssert("C18/bits/and-large-integer-with-itself", ok && vpBigIsInt64(r, a))
 	}
 	vpReach("C18/bigints/done")
+}
+
+// C18/tostring: toString of a number parses back to the same number, over
+// exponents on both sides of the plain / scientific notation switch.
+func VP_C18_tostring() {
+	CB, E := vpParam("CB"), vpParam("E")
+	toString, ok1 := vpBuiltin("toString").(func(interface{}) (string, error))
+	toFloat, ok2 := vpBuiltin("toFloat").(func(interface{}) (*decimal.Big, error))
+	vpAssert("C18/tostring/present", ok1 && ok2)
+	if !(ok1 && ok2) {
+		return
+	}
+	x := vpNumParamExp("x", CB, -E, E)
+	s, err := toString(x.big())
+	vpAssert("C18/toString/no-error", err == nil)
+	r, err2 := toFloat(s)
+	vpObserve("text", s)
+	vpAssert("C18/toString/parses-back-to-same-number", err2 == nil && vpBigEq(r, x.neg, x.coef, x.exp))
+	vpReach("C18/tostring/done")
 }
